@@ -266,11 +266,11 @@ Proof.
   rewrite Hm. destruct Hk; subst; reflexivity.
 Qed.
 
-Theorem order_independent c a ht hs bs k b ls :
+Theorem order_independent c a ht hs bs k b ls thr :
   R c a -> fresh a -> ht = 0 \/ ht = 1 -> body_start_ok bs k b ->
   exists c1 c2,
-    csteps c (describe_head ht hs ++ describe_body bs ls ++ [OEnd true]) = Ok (c1, [described ht hs k b ls]) /\
-    csteps c (describe_body bs ls ++ describe_head ht hs ++ [OEnd true]) = Ok (c2, [described ht hs k b ls]) /\
+    csteps c (describe_head ht hs ++ describe_body bs ls ++ [OEnd true thr]) = Ok (c1, [described ht hs k b ls]) /\
+    csteps c (describe_body bs ls ++ describe_head ht hs ++ [OEnd true thr]) = Ok (c2, [described ht hs k b ls]) /\
     cquery c1 true = cquery c2 true /\
     q_head c1 = hs /\ q_btype c1 = k /\ q_bound c1 = b /\
     (if k =? 0 then q_body c1 = map fst (kept k ls) else q_wlits c1 = kept k ls).
@@ -280,11 +280,11 @@ Proof.
   pose proof (describe_head_first a ht hs bs k b ls Hf Hht Hbs) as H1.
   pose proof (describe_body_first a ht hs bs k b ls Hf Hht Hbs) as H2.
   assert (Hm : (ht =? MIN) = false) by (rewrite MIN_val; destruct Hht; subst; reflexivity).
-  assert (E1 : asteps a ((describe_head ht hs ++ describe_body bs ls) ++ [OEnd true])
+  assert (E1 : asteps a ((describe_head ht hs ++ describe_body bs ls) ++ [OEnd true thr])
                = Some (mkA true (Some (ht, hs)) (Some (k, b, kept k ls)) true, [] ++ [described ht hs k b ls])).
   { eapply asteps_app; [exact H1|]. cbn [asteps astep negb hkind ahead]. rewrite Hm. cbn [andb].
     rewrite acall_described by auto. reflexivity. }
-  assert (E2 : asteps a ((describe_body bs ls ++ describe_head ht hs) ++ [OEnd true])
+  assert (E2 : asteps a ((describe_body bs ls ++ describe_head ht hs) ++ [OEnd true thr])
                = Some (mkA true (Some (ht, hs)) (Some (k, b, kept k ls)) false, [] ++ [described ht hs k b ls])).
   { eapply asteps_app; [exact H2|]. cbn [asteps astep negb hkind ahead]. rewrite Hm. cbn [andb].
     rewrite acall_described by auto. reflexivity. }
